@@ -178,6 +178,7 @@ def run(ctx):
     noshrink_rule(ctx, prog)
     mergeid_rule(ctx, prog)
     request_rule(ctx, prog)
+    idfirst_rule(ctx, prog)
 
     # ---------------- REIDX
     r_re = ctx.rule("C03.REIDX", "reindex(): every id map is remapped with the gap table of its own store, under the same emptiness guard; gaps()/Handle::reindex agree on the gap convention; indices mentioning a remapped handle type are remapped")
@@ -759,3 +760,28 @@ def request_rule(ctx, prog, rid="C03.REQUEST"):
                 ctx.report(r, "%s|%s" % (mirq.short_fn(bid), s_["what"]), "%s resolves a request with to_handle() and then `%s`s the answer: asking with an id that nothing carries (any string) panics instead of answering None / false / an error" % (bid, s_["what"].split("<-")[0]), b.file, s_.get("line"))
     r.hit("to_handle-call-sites", sample={"call_sites": sites})
     ctx.floor(r, sites, 12, "call sites of Request::to_handle (16 counted on the pinned tree)")
+
+
+# ---------------------------------------------------------------------- IDFIRST
+def idfirst_rule(ctx, prog, rid="C03.IDFIRST"):
+    """a public id is whatever string an item carries, also one that has the shape of a temporary id ("!K1").  In
+    StoreFor::resolve_id the lookup in the id map must come before the temporary reading of the string: the map lookup
+    dominates the construction of a handle from the number (otherwise `key("!K1")` answers the item in slot 1, not the
+    item whose id is "!K1")."""
+    r = ctx.rule(rid, "StoreFor::resolve_id looks the string up in the id map before it reads it as a temporary id: the map lookup dominates Handle::new(number)")
+    bs = prog.find_bodies(r"^store::StoreFor::resolve_id$")
+    if len(bs) != 1:
+        ctx.anchor_missing(r, "StoreFor::resolve_id")
+        return
+    b = bs[0]
+    ctx.functions_analysed.add(b.id)
+    gets = [bi for bi, t in b.calls() if re.search(r"HashMap::<.*>::get$", mirq.callee_of(t)[0] or "") and not b.blocks[bi].get("cleanup")]
+    news = [(bi, t.get("line")) for bi, t in b.calls() if (mirq.callee_of(t)[0] or "").endswith("Handle::new") and not b.blocks[bi].get("cleanup")]
+    r.hit(b.id, sample={"idmap_lookups": gets, "temporary_readings": [x[0] for x in news]})
+    if not gets:
+        ctx.anchor_missing(r, "the id map lookup (HashMap::get) in StoreFor::resolve_id")
+        return
+    for bi, line in news:
+        if not any(b.dominates(g, bi) for g in gets):
+            ctx.report(r, "temp-before-idmap", "StoreFor::resolve_id reads the string as a temporary id (Handle::new of its number) on a path that has not looked it up in the id map: an item whose public id has the shape of a temporary id (a key \"!K1\", a dataset created under the name \"!S3\") is not found under its id - the lookup answers whatever sits in that slot, or nothing", b.file, line)
+            break
